@@ -8,9 +8,9 @@ ASSUMPTIONS = [
 
 def run(ctx):
     quick = ctx["tier"] == "quick"
-    runs = [("seq", 250 if quick else 4000, 40, 30, []),
-            ("par", 250 if quick else 4000, 40, 31, []),
-            ("all", 25 if quick else 600, 24, 32, [], "cli")]
+    runs = [("seq", 250 if quick else 20000, 40, 30, []),
+            ("par", 250 if quick else 20000, 40, 31, []),
+            ("all", 25 if quick else 1500, 24, 32, [], "cli")]
     r = codec.run_art("C05", ctx, runs)
     def search():
         # other seeds, three times as many cases
